@@ -282,8 +282,12 @@ func (c *Case) Sexp() string {
 		}
 		cs = append(cs, "("+strings.Join(as, " ")+")")
 	}
+	flag := ""
+	if staleIntoClosedBlock(c.Body) {
+		flag = " (norun)"
+	}
 	return "(proc (params" + sp(strings.Join(ps, " ")) + ") (body " + c.Body.Sexp() + ") (uvars" + sp(strings.Join(us, " ")) +
-		") (calls" + sp(strings.Join(cs, " ")) + "))"
+		") (calls" + sp(strings.Join(cs, " ")) + ")" + flag + ")"
 }
 
 func (c *Case) CreateSQL(name string) string {
@@ -437,7 +441,7 @@ func (r *runner) runCase(c *Case) string {
 func run(a hx.RunArgs) error {
 	out := hx.NewOut(a.OutDir)
 	defer out.Close()
-	out.Rule = "generated procedure bodies (nested BEGIN…END with DECLARE, SET, IF/ELSEIF/ELSE, CASE with and without ELSE, WHILE/REPEAT/LOOP with LEAVE/ITERATE, " +
+	out.Rule = "generated procedure bodies (nested BEGIN…END with DECLARE, SET, IF/ELSEIF/ELSE, CASE with and without ELSE, WHILE/REPEAT/LOOP with LEAVE/ITERATE (a third of the LOOP bodies are one BEGIN…END block), " +
 		"SIGNAL, a trace INSERT) with 0-3 IN/OUT/INOUT parameters and 1-2 CALLs in one session; observation = real procedures.Parse op list + " +
 		"CALL outcome class, user variables and trace rows; a case is non-trivial when the body has a loop or a LEAVE/ITERATE and at least one trace row or OUT value was produced"
 	r := hx.NewRand(a.Seed)
@@ -455,7 +459,14 @@ func run(a hx.RunArgs) error {
 		}
 		feat := features(c.Body)
 		nontriv := (feat["loop"] || feat["jump"]) && strings.ContainsAny(runObs, "0123456789")
-		id := out.Case(sexp, opsObs+" ;; "+runObs, nontriv)
+		// see norun.go: run level outside the model ⇒ compile-level correspondence + oracle only
+		norun := staleIntoClosedBlock(c.Body)
+		sent := runObs
+		if norun {
+			sent = norunObs
+			out.Stat("norun:stale-jump-into-closed-block")
+		}
+		id := out.Case(sexp, opsObs+" ;; "+sent, nontriv)
 		out.Stat("gen:" + tag)
 		for k := range feat {
 			out.Stat("feature:" + k)
@@ -466,7 +477,11 @@ func run(a hx.RunArgs) error {
 		// model-free oracle: direct interpretation of the body
 		want, determined := interpretCase(c)
 		if determined && want != runObs {
-			out.OracleFail(id, "-", fmt.Sprintf("CALL gives %q, direct interpretation of the body gives %q: %s", runObs, want, c.CreateSQL("p")))
+			otag := "-" // inherits the region the model assigns to the case
+			if norun {
+				otag = "stale_label_iterate"
+			}
+			out.OracleFail(id, otag, fmt.Sprintf("CALL gives %q, direct interpretation of the body gives %q: %s", runObs, want, c.CreateSQL("p")))
 		}
 	}
 
